@@ -1392,6 +1392,12 @@ class Evaluator:
                 if isinstance(v, Str) and isinstance(s, Str) and len(args) == 1:
                     self.save(this_lv, Str(s.parts + v.parts))
                     return this_lv
+                if len(args) == 1:
+                    # a receiver or operand the string domain cannot read: the text gains an opaque chunk (never dropped)
+                    s_ = s if isinstance(s, Str) else Str([("opaque", _freeze(s))])
+                    v_ = v if isinstance(v, Str) else Str([("opaque", _freeze(v))])
+                    self.save(this_lv, Str(s_.parts + v_.parts))
+                    return this_lv
             if sn == "push_back" and isinstance(s, Str) and isinstance(val(0), int):
                 self.save(this_lv, Str(s.parts + (chr(val(0)),)))
                 return None
